@@ -38,8 +38,8 @@ ATTRS = {
     "FactorAnalysisBase.ubm": "obj:GMMMachine", "FactorAnalysisBase.r_U": "count:R", "FactorAnalysisBase.r_V": "count:R",
     "FactorAnalysisBase.relevance_factor": "*", "FactorAnalysisBase.em_iterations": "*", "FactorAnalysisBase.enroll_iterations": "*", "FactorAnalysisBase.random_state": "?",
     # ---- linear transforms -------------------------------------------------------------------------------
-    "WCCN.weights": "U-1 K0.5 S-0.5", "WCCN.input_subtract": "*", "WCCN.input_divide": "*", "WCCN.pinv": "?",
-    "Whitening.weights": "U-1", "Whitening.input_subtract": "U", "Whitening.input_divide": "*", "Whitening.pinv": "?",
+    "WCCN.weights": "U-1 K0.5 S-0.5 inv", "WCCN.input_subtract": "*", "WCCN.input_divide": "*", "WCCN.pinv": "?",
+    "Whitening.weights": "U-1 inv", "Whitening.input_subtract": "U", "Whitening.input_divide": "*", "Whitening.pinv": "?",
 }
 
 RETURNS = {
